@@ -736,17 +736,26 @@ func removeDirFiles(td *Directory) error {
 	return nil
 }
 
+var newTimeBucketFileMu sync.Mutex
+
 func newTimeBucketInfoFromTemplate(newTimeBucketInfo *io.TimeBucketInfo) (err error) {
 	if newTimeBucketInfo == nil {
 		return fmt.Errorf("null fileinfo")
 	}
 
+	// serialize creators so that the existence check and the final rename cannot interleave
+	newTimeBucketFileMu.Lock()
+	defer newTimeBucketFileMu.Unlock()
+
 	// If file already exists in this directory, return an error
 	if _, err2 := os.Stat(newTimeBucketInfo.Path); err2 == nil {
 		return FileAlreadyExists("Can not overwrite file")
 	}
-	// Create the file
-	fp, err := os.OpenFile(newTimeBucketInfo.Path, os.O_CREATE|os.O_RDWR, 0o600)
+	// Create the file under a temporary name and move it into place once its header is written,
+	// so that a crash never leaves a year file without a header behind (such a file is registered
+	// by the catalog at the next start and the first read of its header is fatal).
+	tmpPath := newTimeBucketInfo.Path + ".tmp"
+	fp, err := os.OpenFile(tmpPath, os.O_CREATE|os.O_RDWR|os.O_TRUNC, 0o600)
 	if err != nil {
 		return fmt.Errorf("open new time bucket info file %s: %w", newTimeBucketInfo.Path, err)
 	}
@@ -768,6 +777,9 @@ func newTimeBucketInfoFromTemplate(newTimeBucketInfo *io.TimeBucketInfo) (err er
 		int(newTimeBucketInfo.GetRecordLength()),
 	)
 	if err = fp.Truncate(fileSize); err != nil {
+		return UnableToCreateFile(err.Error())
+	}
+	if err = os.Rename(tmpPath, newTimeBucketInfo.Path); err != nil {
 		return UnableToCreateFile(err.Error())
 	}
 
